@@ -465,6 +465,13 @@ def set_step(g):
     g.emit('sobs')
     if g.r.random() < 0.4:
         g.emit('sq %s' % g.p(g.pick('T', 0.4, 0.4)))
+    # the structure of the set's trie and views on the set (PrefixSet has its own wrappers around
+    # remove / remove_keep_tree / remove_children / retain / view_at)
+    r2 = g.r.random()
+    if r2 < 0.35:
+        g.emit('sshape')
+    if r2 < 0.2 or r2 > 0.75:
+        g.emit('sviewat %s' % g.p(g.pick('T', 0.3, 0.5)))
 
 
 def prof_queries(g):
@@ -686,6 +693,13 @@ def prof_views(g):
     if g.tiny:
         for k in g.universe():
             g.emit('q A %s' % g.p(k))
+    # views on a PrefixSet (AsView / AsViewMut for sets)
+    for _ in range(g.r.randint(0, 7)):
+        set_step(g)
+    if g.maps['T'] or g.r.random() < 0.3:
+        g.emit('sshape')
+        for _ in range(g.r.randint(1, 5)):
+            g.emit('sviewat %s' % g.p(g.pick('T', 0.3, 0.5)))
 
 
 def prof_find(g):
@@ -773,6 +787,10 @@ def prof_shape(g):
         g.emit('shape A')
         g.emit('collect A %s' % ','.join(str(g.r.randint(0, 60)) for _ in range(12)))
         g.emit('shape A')
+    # the set twin: its wrappers must leave the same structure as the map's operations
+    for _ in range(g.r.randint(0, 7)):
+        set_step(g)
+        g.emit('sshape')
 
 
 def prof_arena(g):
@@ -918,6 +936,53 @@ def prof_eq(g):
     g.emit('seq')
 
 
+def prof_chain(g):
+    """the DEEPEST possible path: a node at EVERY prefix length 0..w along one address (w+1 nested
+    nodes; the bound of C15/C20), built in random order, some nodes turned into value-less leftovers,
+    some removed; then every prefix of the address and of a sibling address is queried (get, lpm, spm,
+    cover, children), and the mutable and view twins of the lookups are run"""
+    w = g.w
+    a = g.r.getrandbits(w)
+    lens = list(range(0, w + 1))
+    if g.r.random() < 0.25:            # sometimes a gap or two
+        for _ in range(g.r.randint(1, 2)):
+            lens.remove(g.r.choice(lens))
+    g.r.shuffle(lens)
+    for l in lens:
+        k = g.key(a, l)
+        g.emit('ins A %s %d' % (g.p(k), g.val()))
+        g.maps['A'][k] = 1
+    nrem = g.r.choice([0, 0, 1, 2, 3])
+    for _ in range(nrem):
+        l = g.r.choice([w, w - 1, g.r.randint(0, w), 0, 1])
+        k = g.key(a, l)
+        g.emit('%s A %s' % (g.r.choice(['remk', 'remk', 'rem']), g.p(k)))
+        g.maps['A'].pop(k, None)
+    g.emit('obs A')
+    g.emit('arena A')
+    ql = sorted(set([0, 1, 2, w // 2, w - 2, w - 1, w] + [g.r.randint(0, w) for _ in range(6)]))
+    ql = [l for l in ql if 0 <= l <= w]
+    for l in ql:
+        t = g.p(g.key(a, l))
+        g.emit('q A %s' % t)
+        g.emit('lpmmut A %s +0' % t)
+        g.emit('view A fl:%s dump' % g.p(g.key(a, l), False))
+        g.emit('viewmut A fx:%s info' % g.p(g.key(a, l), False))
+    # the sibling of the full-width key and of a middle key: the last bit / a middle bit flipped
+    for l in (w, max(1, w // 2)):
+        b = a ^ (1 << (w - l))
+        t = g.p(g.key(b, l))
+        g.emit('q A %s' % t)
+        g.emit('lpmmut A %s +0' % t)
+    g.emit('iters A')
+    g.emit('shape A')
+    # the same chain as a set
+    for l in sorted(lens)[-3:] + sorted(lens)[:2]:
+        g.emit('sins %s' % g.p(g.key(a, l)))
+    g.emit('sq %s' % g.p(g.key(a, w)))
+    g.emit('sobs')
+
+
 def prof_panic(g):
     """C20: full alphabet incl. handle-level calls, callback panics at every index"""
     for _ in range(g.r.randint(4, 25)):
@@ -935,6 +1000,12 @@ def prof_panic(g):
             g.emit('arena A')
         if g.r.random() < 0.3:
             g.emit('q A %s' % g.p(g.pick('A', 0.4, 0.4)))
+        # clone / clone_from (into destinations with released slots) and use of the result
+        r2 = g.r.random()
+        if r2 < 0.08:
+            g.emit('save A')
+        elif r2 < 0.18:
+            g.emit('clone A')
     g.emit('iters A')
     g.emit('view A %s dump' % g.nav('A'))
 
@@ -1189,7 +1260,7 @@ PROFILES = {
     'count_nov': prof_count_nov, 'setops': prof_setops, 'setops_mut': prof_setops_mut,
     'bulk': prof_bulk, 'retain': prof_retain, 'views': prof_views, 'find': prof_find, 'muttrav': prof_muttrav,
     'shape': prof_shape, 'arena': prof_arena, 'arenax': prof_arenax, 'churn': prof_churn, 'hostbits': prof_hostbits,
-    'excl': prof_excl, 'eq': prof_eq, 'panic': prof_panic, 'known': prof_known, 'alg': prof_alg,
+    'excl': prof_excl, 'eq': prof_eq, 'panic': prof_panic, 'chain': prof_chain, 'known': prof_known, 'alg': prof_alg,
 }
 
 
